@@ -278,4 +278,49 @@ Section Builder.
     - apply build_sound. intros x Hx. apply act_root. exact Hx.
     - destruct (build_complete bfs fuel roots Hf) as [I1 I2]. induction 1 as [x Hx|x c Hx IHx Hc]; [apply I1; auto|eapply I2; eauto].
   Qed.
+
+  (* the validating builder: it answers exactly when every visited parameter was given a value of its domain, and then
+     it visited what `build` visits and recorded the chosen values *)
+  Lemma build_v_ok bfs : forall fuel work l, build_v fuel bfs choose work = Ok l ->
+    map fst l = build fuel bfs choose work /\ Forall (fun tv => snd tv = choose (fst tv) /\ snd tv <> 0%N) l.
+  Proof.
+    induction fuel as [|fuel IH]; intros work l H; [cbn in H; inversion H; subst; split; [reflexivity|constructor]|].
+    destruct work as [|t rest]; [cbn in H; inversion H; subst; split; [reflexivity|constructor]|].
+    cbn [build_v] in H. destruct (N.eqb (choose t) 0) eqn:Hz; [discriminate|].
+    destruct (build_v fuel bfs choose _) as [l'|e] eqn:Hr; [|discriminate]. inversion H; subst l; clear H.
+    destruct (IH _ _ Hr) as [I1 I2]. split.
+    - cbn [map fst build]. f_equal. exact I1.
+    - constructor; [cbn; split; [reflexivity|apply N.eqb_neq; exact Hz]|exact I2].
+  Qed.
+  Lemma build_v_refuses bfs : forall fuel work t, In t (build fuel bfs choose work) -> choose t = 0%N ->
+    exists e, build_v fuel bfs choose work = Err e.
+  Proof.
+    induction fuel as [|fuel IH]; intros work t Hin Hz; [destruct Hin|].
+    destruct work as [|x rest]; [destruct Hin|]. cbn [build] in Hin. cbn [build_v].
+    destruct (N.eqb (choose x) 0) eqn:Hx; [eexists; reflexivity|].
+    destruct Hin as [<-|Hin]; [rewrite Hz in Hx; discriminate|].
+    destruct (IH _ _ Hin Hz) as [e He]. rewrite He. eexists; reflexivity.
+  Qed.
+  Lemma build_v_accepts bfs : forall fuel work, (forall t, In t (build fuel bfs choose work) -> choose t <> 0%N) ->
+    exists l, build_v fuel bfs choose work = Ok l.
+  Proof.
+    induction fuel as [|fuel IH]; intros work H; [eexists; reflexivity|].
+    destruct work as [|x rest]; [eexists; reflexivity|]. cbn [build] in H. cbn [build_v].
+    destruct (N.eqb (choose x) 0) eqn:Hx; [apply N.eqb_eq in Hx; exfalso; apply (H x); [left; reflexivity|exact Hx]|].
+    destruct (IH _ (fun t Ht => H t (or_intror Ht))) as [l Hl]. rewrite Hl. eexists; reflexivity.
+  Qed.
+  (* a value outside the domain of ANY active parameter is refused; otherwise the builder answers with exactly the
+     active parameters and the values chosen for them *)
+  Lemma builder_validates bfs fuel : (work_size roots <= fuel)%nat ->
+    ((exists t, active t /\ choose t = 0%N) -> exists e, build_v fuel bfs choose roots = Err e) /\
+    (forall l, build_v fuel bfs choose roots = Ok l ->
+       (forall t, In t (map fst l) <-> active t) /\ Forall (fun tv => snd tv = choose (fst tv) /\ snd tv <> 0%N) l) /\
+    ((forall t, active t -> choose t <> 0%N) -> exists l, build_v fuel bfs choose roots = Ok l).
+  Proof.
+    intros Hf. split; [|split].
+    - intros [t [Ha Hz]]. eapply build_v_refuses; [apply builder_visits_active; eauto|exact Hz].
+    - intros l Hl. destruct (build_v_ok _ _ _ _ Hl) as [I1 I2]. split; [|exact I2].
+      intros t. rewrite I1. apply builder_visits_active. exact Hf.
+    - intros H. apply build_v_accepts. intros t Ht. apply H. eapply builder_visits_active; eauto.
+  Qed.
 End Builder.
